@@ -61,6 +61,7 @@ package storage
 
 //@ func storageWaterBalance(rainfallTS, petTS, inflowTS, demandTS, targetMinimumVolume, targetMinimumCapacity, initialVolume, initialLevel, initialArea, deltaT, nLVA, levels, volumes, areas, minRelease, maxRelease, volumeTS, outflowTS, rainfallVolume, evaporationVolume) returns (volume, level, area)
 //@   locals idxCurve0, idxCurveN, volCurveMin, volCurveMax, maxSpill, cappedPiecewise, res, err, releaseRate, minRel, maxRel, releaseRatesCloseEnough, absError, relError, err, n, nSubtimeSteps, idx, i, timeRemaining, subtimestep, outflowVolume, targetMinCap, targetMaxVol, autoAdjustDemand, inflow, origDemand, demand, rainfallVolForTimestep, evaporationVolForTimestep, rainfallPerSecond, petPerSecond, netAtmosphericFluxDepthPerSecond, estOutflow, testVol, avgOutflow, avgArea, estOutflowAfter, overTopRatio, excessOutflow, excessOutflowVolume, outflowRate
+//@   loopsigs 99c00234 fa233494 06be35b4
 //@   canary [C13.canary-storage] implies(rainfallTS.len > 0, volumeTS.at(0) == initialVolume)
 //@   kernel
 //@   states initialVolume, initialLevel, initialArea
